@@ -210,6 +210,23 @@ func (r *runner) runOp(ts *taskState, o *Op, depth int) {
 		r.readCalls(rec, o.Method)
 		rec.RetSeq = r.sim.Point("return " + o.String())
 		rec.Done = true
+	case OpReread:
+		// user code looks again at a snapshot it took earlier
+		rec := r.newRec(ts, o, depth)
+		rec.InvSeq = r.sim.Point("re-read " + o.Method + "Calls() snapshot")
+		for i := len(r.obs.Recs) - 1; i >= 0; i-- {
+			p := r.obs.Recs[i]
+			if p.Task == ts.idx && p.Op.Kind == OpCalls && p.Op.Method == o.Method && p.Done && p.snapVal.IsValid() {
+				r.readElems(p.snapVal, o.Method)
+				now := tuplesOf(p.snapVal)
+				if !equalStrings(now, p.Snap) && p.SnapChanged == "" {
+					p.SnapChanged = fmt.Sprintf("had %d records %s, now %d records %s", len(p.Snap), r.descTuples(p.Snap), len(now), r.descTuples(now))
+				}
+				break
+			}
+		}
+		rec.RetSeq = r.sim.Seq()
+		rec.Done = true
 	case OpReset, OpResetAll:
 		rec := r.newRec(ts, o, depth)
 		name := "ResetCalls"
@@ -220,9 +237,8 @@ func (r *runner) runOp(ts *taskState, o *Op, depth int) {
 		mv := r.mock.MethodByName(name)
 		if mv.IsValid() {
 			mv.Call(nil)
-		} else {
-			r.obs.Notes = append(r.obs.Notes, "no method "+name)
 		}
+		// a missing reset method is reported by the static method-set check (C08)
 		rec.RetSeq = r.sim.Point("return " + name)
 		if r.seq1 {
 			rec.PostAll = map[string][]string{}
@@ -254,7 +270,20 @@ func (r *runner) readCalls(rec *OpRec, method string) {
 		return
 	}
 	rec.snapVal = out[0]
+	r.readElems(out[0], method)
 	rec.Snap = tuplesOf(out[0])
+}
+
+// readElems reads every element of a snapshot the way user code would: each
+// is a probed read of the element's address.
+func (r *runner) readElems(s reflect.Value, method string) {
+	r.sim.Keep(s.Interface())
+	for i := 0; i < s.Len(); i++ {
+		e := s.Index(i)
+		if e.CanAddr() && e.Type().Size() > 0 {
+			r.sim.ReadAddr(e.Addr().UnsafePointer(), "snapshot of "+method+"Calls()[i]")
+		}
+	}
 }
 
 // tuplesOf renders every record of an MCalls() result as the joined idents of
